@@ -72,7 +72,7 @@ def main():
     m = dict(version=1,
              setup_cmd="python3-vt -m compileall -q llsym checks >/dev/null && python3-vt llsym/worker.py harness/h_smoke.cpp --budget 120 | tail -1",
              hooks=dict(guard="TRADIAS_CONTIGUOUS_VERIF", enable="no hooks: the library state is observable through its public interface; all instrumentation lives in the harness allocator and value types (harness/verif.hpp)",
-                        baseline_off_cmd="cmake --build /repo/_build -j16 -- -k0 ; ctest --test-dir /repo/_build -j8 --timeout 900",
+                        baseline_off_cmd="/verif/bin/suite.sh   # = cmake --build /repo/_build -j16 -- -k0 ; ctest --test-dir /repo/_build -j8 --timeout 900 --output-junit ... ; compares the passing names with the 113 of /root/.vp/BASELINE.json (there are no hooks, so guard off = the tree as it is)",
                         source_commits=[], add_only=True),
              engines=[dict(name="llsym", path="llsym/engine.py", serves_properties=sorted(CLAIMED), kind_free_text="own KLEE-style symbolic executor over clang-14 textual LLVM IR, z3 back end, native replay runtime harness/replay_rt.cpp")],
              checks=checks, not_applicable=na,
